@@ -188,7 +188,7 @@ Lemma raw_send_parse w sk wc addr seqno valid ms init rnd h e :
   exists body, create_body w sk ms seqno valid op_signed_external rnd = Ok body /\
     (length ms <= max_messages (w_ver w))%nat /\ chash e = Ok h /\
     ext_msg wc addr init body = Ok e /\
-    parse_ext chash e = Ok (mkext (Z.to_N (wc mod 256)) addr init body).
+    parse_ext chash e = Ok (mkext (ext_in_std wc addr) init body).
 Proof.
   intros Ha Hi H. unfold Wallet.raw_send_msg in H.
   destruct (max_messages (w_ver w) <? length ms)%nat eqn:Em; [discriminate|]. apply Nat.ltb_ge in Em.
@@ -212,7 +212,7 @@ Theorem built_message_verifies w sk wc addr seqno valid ms init rnd h e :
   length addr = 256%nat -> init_ok chash init -> sendable (w_ver w) ->
   raw_send_msg w sk wc addr seqno valid ms init rnd = Ok (h, e) ->
   exists body,
-    parse_ext chash e = Ok (mkext (Z.to_N (wc mod 256)) addr init body) /\
+    parse_ext chash e = Ok (mkext (ext_in_std wc addr) init body) /\
     (forall appended, verify_layout (w_ver w) = Some appended ->
                       verify_signature (w_ver w) e (pub sk) = Ok tt) /\
     (if sig_appended (w_ver w) then v5_verify chash verify (pub sk) body
